@@ -111,6 +111,12 @@ MUTANTS = [
     ("a4_identify_in_district", "catch", "Alg 4 line 4: IDENTIFY told that the input district is `district` itself",
      "                input_district=domain_graph_district,",
      "                input_district=frozenset(district),"),
+    ("a4_identify_whole_district", "catch", "Alg 4 line 4: IDENTIFY asked for Q[B_i] (the domain-graph district) instead of Q[C_i]",
+     "                input_variables=frozenset(district),",
+     "                input_variables=domain_graph_district,"),
+    ("a4_policy_check_inverted", "catch", "Alg 4: policy check inverted (a domain is usable only WITH a policy on the district)",
+     "    return len(set(district).intersection(interventions)) == 0",
+     "    return len(set(district).intersection(interventions)) != 0"),
     # ------------------------------------------------------------------ Algorithm 2 (ctfTRu)
     ("a2_sum_all_ancestors", "catch", "Alg 2 line 14: sum over ALL ancestors, outcome variables included",
      "        if (variable, value) not in simplified_event\n    }\n    transported_unconditional_query",
@@ -118,7 +124,7 @@ MUTANTS = [
     ("a2_sum_excl_unsimplified", "catch", "Alg 2 line 14: summation range computed from the UNSIMPLIFIED event",
      "        if (variable, value) not in simplified_event\n    }\n    transported_unconditional_query",
      "        if (variable, value) not in event\n    }\n    transported_unconditional_query"),
-    ("a2_sum_excl_by_name", "catch", "Alg 2 line 14: summation range excludes every event variable NAME (also valueless ones)",
+    ("a2_sum_excl_by_name", "equiv", "Alg 2 line 14: summation range excludes event variables by NAME (differs only on multi-world queries = open finding)",
      "        if (variable, value) not in simplified_event\n    }\n    transported_unconditional_query",
      "        if variable.get_base() not in {v.get_base() for v, _ in simplified_event}\n    }\n"
      "    transported_unconditional_query"),
@@ -140,7 +146,7 @@ MUTANTS = [
     ("a2_inconsistent_only_subscripts", "catch", "Def 4.1: only part (ii) (two subscript values) is tested, part (i) dropped",
      "    return _any_variable_values_inconsistent_with_interventions(\n        event\n    ) or _any_inconsistent_intervention_values(event)",
      "    return _any_inconsistent_intervention_values(event)"),
-    ("a2_factors_on_full_graph", "equiv", "Alg 2 line 2: ctf-factors computed on the full graph instead of the ancestral subgraph",
+    ("a2_factors_on_full_graph", "catch", "Alg 2 line 2: ctf-factors computed on the full graph instead of the ancestral subgraph (IDENTIFY then crashes)",
      "            graph=outcome_ancestor_graph,\n",
      "            graph=graph,\n"),
     ("a2_ancestors_of_first_only", "catch", "Alg 2 line 2: ancestors of only the first event variable",
@@ -158,6 +164,9 @@ MUTANTS = [
      "        # as specified by the output for Algorithm 1",
      "    simplified_event: Event | None = list(event)\n    if simplified_event is None:\n"
      "        # as specified by the output for Algorithm 1"),
+    ("w_event_value_flipped", "catch", "public wrapper: the value of an event variable is read with the opposite star",
+     "            value = Intervention(name=variable.name, star=variable.star)\n        else:\n            value = None",
+     "            value = Intervention(name=variable.name, star=not variable.star)\n        else:\n            value = None"),
     # ------------------------------------------------------------------ Algorithm 3 (ctfTR)
     ("a3_denominator_minus_outcomes", "catch", "Alg 3 line 4: denominator sums over D* minus Y instead of D* minus X",
      "        outcome_variable_ancestral_component_variable_names - conditioned_variable_names\n",
@@ -182,11 +191,11 @@ MUTANTS = [
     ("a3_numerator_sums_conditions", "catch", "Alg 3 line 4: numerator sums over D* minus Y (conditions summed out)",
      "        outcome_variable_ancestral_component_variable_names - outcome_and_conditioned_variable_names\n",
      "        outcome_variable_ancestral_component_variable_names - {v.get_base() for v, _ in outcomes}\n"),
-    ("a3_components_of_conditions_too", "equiv",
-     "Alg 3 line 2: component test with outcome_and_conditioned_variables (independent components join D*; cancels)",
+    ("a3_components_of_conditions_too", "catch",
+     "Alg 3 line 2: component test with outcome_and_conditioned_variables (independent components join D*)",
      "        outcome_variables=outcome_variables,\n        outcome_variable_to_value_mappings=",
      "        outcome_variables=outcome_and_conditioned_variables,\n        outcome_variable_to_value_mappings="),
-    ("a3_all_components", "equiv", "Alg 3 line 2: D* is the union of ALL ancestral components (cancels in the fraction)",
+    ("a3_all_components", "catch", "Alg 3 line 2: D* is the union of ALL ancestral components",
      "        if any(variable in outcome_variables for variable in component):\n",
      "        if True:\n"),
     ("a3_first_component_only", "catch", "Alg 3 line 2: only the first outcome component is kept",
@@ -208,12 +217,13 @@ MUTANTS = [
         if variable.get_base() in expression_variables
     ]""",
      """    ]"""),
-    ("a3_condition_values_dropped", "catch", "Alg 3 line 2: conditions' values are not attached in D* (only outcomes' values)",
-     "            for value in outcome_variable_to_value_mappings[variable]:\n"
-     "                outcome_ancestral_component_variables_and_values.append((variable, value))",
-     "            for value in sorted(outcome_variable_to_value_mappings[variable], key=str)[:1]:\n"
-     "                outcome_ancestral_component_variables_and_values.append((variable, value))"),
-    ("a3_components_ignore_conditions", "catch", "Alg 3 line 1: ancestral components computed with an empty conditioning set",
+    ("a3_revert_condition_filter", "catch", "Alg 3 line 4: every condition is put in the returned event (reverts fix 2ff6f8e)",
+     "        for variable, value in conditions\n        if variable.get_base() in expression_variables\n",
+     "        for variable, value in conditions\n"),
+    ("a3_event_keeps_subscripts", "catch", "Alg 3 line 4: returned event keeps the outcomes' counterfactual variables (not their base names)",
+     "        (variable.get_base(), value) for variable, value in outcomes\n",
+     "        (variable, value) for variable, value in outcomes\n"),
+    ("a3_components_ignore_conditions", "equiv", "Alg 3 line 1: ancestral components computed with an empty conditioning set (a larger D*: same value, refuses more)",
      "        conditioned_variables=conditioned_variables,\n        root_variables=outcome_and_conditioned_variables,",
      "        conditioned_variables=set(),\n        root_variables=outcome_and_conditioned_variables,"),
     # ------------------------------------------------------------------ validators
@@ -227,7 +237,7 @@ MUTANTS = [
      """    if False and (len(domain_graphs) == 0 or len(domain_data) == 0):
         raise ValueError(
             "In _validate_transport_unconditional_counterfactual_query_input: empty list for"""),
-    ("vu_drop_all_none", "catch", "ctfTRu validator: check 6 (all values None) removed",
+    ("vu_drop_all_none", "equiv", "ctfTRu validator: check 6 (all values None) removed (such events are then answered correctly)",
      "    if all(value is None for _, value in event):",
      "    if False and all(value is None for _, value in event):"),
     ("vu_drop_topo_check", "equiv", "ctfTRu validator: check 10 (valid topological order) removed (inputs outside the quantifier)",
@@ -237,14 +247,21 @@ MUTANTS = [
      """        if False and not _valid_topo_list(topo=domain_graphs[k][1], graph=domain_graphs[k][0]):
             raise ValueError(
                 "In _validate_transport_unconditional_counterfactual_query_input: the provided"""),
-    ("vu_drop_policy_in_graph", "equiv", "ctfTRu validator: check 15.5 (policy variable not in the graph) removed",
+    ("vu_drop_topo_vertices", "catch", "ctfTRu validator: check 14 (order and graph have the same vertices) removed: check 10 then raises KeyError",
+     """        if topo_vertices != graph_vertices:
+            raise ValueError(
+                "In _validate_transport_unconditional_counterfactual_query_input: the vertices""",
+     """        if False and topo_vertices != graph_vertices:
+            raise ValueError(
+                "In _validate_transport_unconditional_counterfactual_query_input: the vertices"""),
+    ("vu_drop_policy_in_graph", "catch", "ctfTRu validator: check 15.5 (policy variable not in the graph) removed (Algorithm 4's own check then raises KeyError)",
      """        if not all(v in graph_vertices_without_transportability_nodes for v in policy_vertices):
             raise ValueError(
                 "In _validate_transport_unconditional_counterfactual_query_input: the set of""",
      """        if False and not all(v in graph_vertices_without_transportability_nodes for v in policy_vertices):
             raise ValueError(
                 "In _validate_transport_unconditional_counterfactual_query_input: the set of"""),
-    ("vu_invert_value_base", "equiv", "ctfTRu validator: check 13 inverted (every valued event is rejected)",
+    ("vu_invert_value_base", "catch", "ctfTRu validator: check 13 inverted (every valued event is rejected; ctfTR then crashes in its call of Algorithm 2)",
      "        value is not None and variable.get_base() != value.get_base() for variable, value in event\n",
      "        value is not None and variable.get_base() == value.get_base() for variable, value in event\n"),
     ("vu_not_called", "catch", "ctfTRu: the procedure no longer calls its validator",
@@ -299,6 +316,9 @@ MUTANTS = [
     ("h_other_valid_topo", "harmless", "Alg 4: another valid topological order of the same domain graph is used",
      "            domain_topo = domain_graphs[k][1]\n",
      "            domain_topo = domain_graph.topological_sort()\n"),
+    ("h_last_usable_domain", "harmless", "Alg 4: the LAST usable domain is taken instead of the first (any usable domain gives Q[C_i])",
+     "    for k in range(len(domain_graphs)):\n        # Also Line 1",
+     "    for k in reversed(range(len(domain_graphs))):\n        # Also Line 1"),
     ("h_usable_test_swapped", "harmless", "Alg 4: the two conjuncts of the usability test evaluated in the other order",
      """        if _no_intervention_variables_in_domain(
             district=district, interventions=domain_data[k][0]
@@ -350,7 +370,7 @@ def _run_check(repo: Path, seed: int, timeout: int):
                 c = d["case"]
                 shape = {"kind": c["kind"], "stream": c.get("stream", "random"), "malformed": c.get("malformed"),
                          "n_nodes": len({v for e in c["g"]["di"] + c["g"]["bi"] for v in e} | set(c["g"]["nodes"])),
-                         "n_domains": len(c["domains"]), "oracle_says": (d.get("oracle_says") or "")[:160], "case": c}
+                         "n_domains": len(c["domains"]), "oracle_says": (d.get("oracle_says") or "")[:400], "case": c}
             except Exception as e:  # noqa: BLE001
                 shape = {"error": str(e)}
             concrete.append(shape)
